@@ -858,7 +858,14 @@ func replayMachine(args []string) (any, error) {
 		budget := 0
 		terminating := len(unint) > 0 && unint[0].Status != "run"
 		if !terminating {
+			// the model ran `fuel` steps of a non-terminating program: give the implementation a poll budget that
+			// covers every poll the model saw (the comparison is on the common prefix)
 			budget = 400
+			for _, o := range outs {
+				if o.Polls+50 > budget {
+					budget = o.Polls + 50
+				}
+			}
 		}
 		base := runOnce(ps, 0, budget)
 		if base.panicV != "" {
